@@ -500,7 +500,7 @@ pub fn run(ctx: &Ctx) -> i32 {
         ctx.tier,
         ctx.seed,
         "exploration",
-        "ALL didOpen/didChange histories of length <= 3 (quick: 1110) / <= 4 (thorough: 11110) over 2 URIs x 5 texts (valid, lexical error, syntax error, semantic error, depends-on-the-other-document); the enumeration is prefix-closed, so the publication for the last notification of each history is judged: (1) one publishDiagnostics per notification with its URI and version, in order; (2) equals (multiset of code, start line, start character, message) what a fresh server publishes for that document when the other open document is opened first; (3) equals (code, line, column) what `ironplcc check <dir>` prints for that file. Plus random histories of length <= 40 over documents of the valid / single-fault generators with token mutations ((1), (2) and (3)). Non-trivial: history touches both URIs or changes one URI twice; distinct by history.",
+        "ALL didOpen/didChange histories of length <= 3 (quick: 1110) / <= 4 (thorough: 11110) over 2 URIs x 5 texts (valid, lexical error, syntax error, semantic error, depends-on-the-other-document); the enumeration is prefix-closed, so the publication for the last notification of each history is judged: (1) one publishDiagnostics per notification with its URI and version, in order; (2) equals (multiset of code, start line, start character, message) what a fresh server publishes for that document when the other open document is opened first; (3) equals (code, line, column) what `ironplcc check <dir>` prints for that file. Plus random histories of length <= 40 over documents of the valid / single-fault generators with token mutations, documents with several diagnostics at ONE place (duplicated structure elements, a value listed three times, a list of names of one undeclared type - lists are compared, not sets), flat chains of 150 .. 250 operands, texts that begin with U+FEFF ((1), (2) and (3)). Non-trivial: history touches both URIs or changes one URI twice; distinct by history.",
     );
     let gates = ctx.gates_for("C11");
     let off = gates.off_list();
